@@ -101,7 +101,7 @@ def valid_configs(det, tier):
     elif det == "MovingWindow":
         for b in (1, 2, 3) + ((5,) if th else ()):
             for ts in (0.0, 1.0, None):
-                for lv in (0.01, 0.5) + ((0.9,) if th else ()):
+                for lv in (0.01, 0.5, 0.999) + ((0.9,) if th else ()):          # Appendix B: level in (0, 1)
                     for sc in (None, "GVar") + (("L2", "GCov") if th else ()):
                         out.append({"det": det, "params": {"bandwidth": b, "threshold_scale": ts, "level": lv}, "scorer": sc})
         for b, mdi in ((4, 1), (6, 1), (6, 2), (8, 3)):      # every min_detection_interval the constructor accepts
@@ -235,7 +235,7 @@ def run(tier="quick", seed=0, repo="/repo"):
                     continue
                 if which == "intermediate-penalty-with-p=1" and p > 1:
                     continue
-                X = make_data("normal", 12, p, seed)
+                X = make_data("normal", 10, p, seed)
                 expect_value_error(rec, spec, X, X, repo, which, by, "A")
                 rec.case(("A", json.dumps(spec, sort_keys=True), p), True, {"part": "A", "invalid": which, "spec": spec, "p": p})
                 rec.group(det + "/invalid-config", True)
